@@ -1,4 +1,6 @@
 import Orca.Lemmas.Types
+import Orca.Gen.ApiOutline
+import Orca.Model.ApiOutlineSpec
 /-!
 # C13 — added types are exact and deduplicated
 
@@ -71,3 +73,11 @@ example :
     (addAll s [7, 9, 9, 7]).2 = [0, 3, 3, 0] ∧ encoded (addAll s [7, 9, 9, 7]).1 = [some 7, some 7, some 7, some 9] := by decide
 
 end Orca.Types
+
+/-- **The tie to the source (regenerated on every run).** The control-and-call skeletons of the functions this property rests on:
+    `add_type` and `add_func_type` are what M5's interning was transcribed from. A step moved, an early exit, guard, call or assignment added or removed breaks this obligation; renaming, comments and
+    formatting do not. -/
+theorem c13_interning_code_reviewed :
+    Orca.Gen.ApiOutline.add_type = Orca.ApiOutlineSpec.add_type
+    ∧ Orca.Gen.ApiOutline.add_func_type = Orca.ApiOutlineSpec.add_func_type :=
+  ⟨rfl, rfl⟩
